@@ -15,7 +15,7 @@ from framework.registry import target, job, PROPS, COMMON_ASSUME
 #    nothing about NaN in an input whose coefficient is zero).
 target('c07', ['harness/c07_primitives.cpp'])
 
-RANDOM = 'spmv,vecops,mixed,bcrs,eigen,hybrid'
+RANDOM = 'spmv,vecops,mixed,mixprec,bcrs,eigen,hybrid'
 def c07_jobs(tier):
     q = tier == 'quick'
     js = [job('prim-plain-t1', 'c07', 'plain', threads=1, shards=6 if q else 12, timeout=3600),
